@@ -175,7 +175,9 @@ def serialize (version : Nat) : DataType → CqlVal → Bytes
   -- §5.21 "A sequence of [bytes] values representing the items in a tuple"
   | .tuple ts, .tuple fs => serializeFields version ts fs
   -- §6 "A UDT value is composed of successive [bytes] values, one for each field of the UDT value (in the order
-  -- defined by the type)"
+  -- defined by the type). A UDT value will generally have one value for each field of the type it represents, but it
+  -- is allowed to have less values than the type has fields": `serializeFields` writes one `[bytes]` per VALUE, so a
+  -- value list shorter than `ts` is that shorter form (see `Cql.Props.C12.C12_udt_fewer_fields`)
   | .udt _ _ _ ts, .udt fs => serializeFields version ts fs
   | _, _ => []
 
